@@ -126,10 +126,13 @@ class ManagerStub:
 
     def add_capture(self, name):
         self.log.append(("add", name))
+        self.answers[name] = True             # POST of add_capture: the name is registered from now on
 
     def get_capture_index(self, name):
         self.log.append(("index", name))
-        return pyvc.sym_int("idx")
+        idx = pyvc.sym_int("idx")
+        pyvc.assume(idx.t >= 1)               # POST of get_capture_index: a 1-based position in the table
+        return idx
 
 
 @scenario("captures:builders-sym", CB, P, doc="the four builders against the CapturesManager contract (any table)")
